@@ -2698,12 +2698,18 @@ class HasTraits(CHasTraits, metaclass=MetaHasTraits):
                             self._sync_trait_modified, trait_name, remove=True
                         )
 
-                        if is_list:
-                            self._on_trait_change(
-                                self._sync_trait_items_modified,
-                                trait_name + "_items",
-                                remove=True,
-                            )
+                    # The items handler goes with the last List partner,
+                    # whatever other partners remain.
+                    if is_list and not any(
+                        other() is not None
+                        and other()._is_list_trait(other_alias)
+                        for other, other_alias in dic.values()
+                    ):
+                        self._on_trait_change(
+                            self._sync_trait_items_modified,
+                            trait_name + "_items",
+                            remove=True,
+                        )
 
             if mutual:
                 object.sync_trait(alias, self, trait_name, False, True)
@@ -2732,10 +2738,12 @@ class HasTraits(CHasTraits, metaclass=MetaHasTraits):
         if key not in dic:
             if len(dic) == 0:
                 self._on_trait_change(self._sync_trait_modified, trait_name)
-                if is_list:
-                    self._on_trait_change(
-                        self._sync_trait_items_modified, trait_name + "_items"
-                    )
+            if is_list:
+                # Needed as soon as one partner is a List trait, not only
+                # if the first one is; registering it again does nothing.
+                self._on_trait_change(
+                    self._sync_trait_items_modified, trait_name + "_items"
+                )
             dic[key] = value
             setattr(object, alias, getattr(self, trait_name))
 
